@@ -12,6 +12,7 @@ from pathlib import Path
 from typing import Any, Dict, List, Optional, Tuple
 
 from harness.extract import isolation_reset as x_ir
+from harness.extract import isolation_sinkflags as x_sf
 from harness.extract import sharedstate as x_ss
 from harness.lib import scen
 from harness.lib.core import VERIF, Ctx, Rng, lean_lock, run_driver, shrink_ops
@@ -20,7 +21,15 @@ from harness.rigs import isolation as iso
 from harness.rigs import isolation_sched as isd
 
 MANIFEST = {
-    "text": "ROUND 3 (see design_notes/C04.md): F-10 REPAIRED (fix3-C04: NMNE settings are state of each game's own network) — the inventory "
+    "text": "ROUND 7: F-C04-r7-1 REPAIRED (fix4-C04: a SysLog / PacketCapture writes to its file logger only when it HAS one). The process-wide "
+            "output settings SIM_OUTPUT are classified sink-only (read by log calls only, modelled as `Cmd.log` without effect); that is sound only "
+            "if a log call cannot raise on account of a flag another environment wrote: C04_sink_flag_counterexample refutes isolation for log "
+            "calls that dereference a logger under the process-wide flag alone, C04_gen_sink_flag_uses_guarded (Gen/IsolationSinkFlags: every "
+            "attribute created under a test on SIM_OUTPUT is initialised unconditionally and dereferenced, anywhere in the package, only under "
+            "its own `is not None` guard; two reviewed error branches discharged) excludes them, and rig family (h) runs two instances whose "
+            "io_settings differ in every single option and in all of them, both directions and creation orders, with real file output in a "
+            "temporary session directory; a difference that disappears when SIM_OUTPUT is shielded is a VIOLATION (channel sim-output-settings). "
+            "ROUND 3 (see design_notes/C04.md): F-10 REPAIRED (fix3-C04: NMNE settings are state of each game's own network) — the inventory "
             "obligation is now FULL (C04_gen_globals_safe: no inventory entry is `shared`; C04_gen_no_readable_global; C04_gen_nmne_per_game keeps "
             "the two class attributes unwritten), and C04_skeleton_isolated_partial excludes exactly F-11: every schedule of construct / "
             "reset(seed) / the code's own step of any number of instances leaves each trajectory equal to the solo one provided the instances that "
@@ -51,7 +60,9 @@ MANIFEST = {
     "note": "C04-specific: the model abstracts an operation to its global access pattern; the static call graph is by name (self type followed "
             "through constructors, registered lambdas deferred, unknown receivers resolved within the caller's import closure) — callbacks run "
             "by third-party code (pydantic validators, logging formatters), getattr and dunder protocol methods are seen only by the monitor. "
-            "File/terminal output (SIM_OUTPUT, pcap loggers) is outside the claim. known_findings.json still lists F-10 as open (not editable "
+            "The CONTENT of file/terminal output (which instance's messages end up in which file: all instances of a process share one session "
+            "directory and logger names) is outside the claim; that producing it cannot change or abort an operation is inside (round 7). "
+            "known_findings.json still lists F-10 as open (not editable "
             "from this check); findings/C04.json carries the `fixed` entry and the rig reports a reappearance under another channel name.",
     "technique": "Lean 4 non-interference proof over a mini imperative language; regenerated shared-state inventory, seed handling and static "
                  "call graph; differential env rig (dirty history over a seed family, interleaved instances incl. a third instance and close, with "
@@ -95,6 +106,16 @@ def episodic_dir(name: str) -> Optional[str]:
 def make_env_path(path: str):
     from primaite.session.environment import PrimaiteGymEnv
     return PrimaiteGymEnv(env_config=path)
+
+
+def make_marl_env(cfg: Dict):
+    """`PrimaiteRayMARLEnv(cfg)` behind the adapter. Action masking is switched off: with the installed gymnasium the class cannot be
+    constructed otherwise (`spaces.MultiBinary(space.n)` refuses a numpy integer - a matter of the library version, not of C04)."""
+    cfg = copy.deepcopy(cfg)
+    for a in cfg.get("agents", []):
+        if isinstance(a.get("agent_settings"), dict) and a["agent_settings"].get("action_masking"):
+            a["agent_settings"]["action_masking"] = False
+    return iso.MarlAdapter(cfg)
 
 
 # ---------------------------------------------------------------------------------------------- scenario variants
@@ -451,6 +472,9 @@ def _run_interleaving(rp: dict) -> dict:
     sched = [tuple(x) for x in rp["schedule"]]
     cfg_a = rp["cfg_a"] if "cfg_a" in rp else _variant(rp["a"])   # corpus files name the scenarios, replay files carry them
     cfg_b = rp["cfg_b"] if "cfg_b" in rp else _variant(rp["b"])
+    if rp.get("io_sandbox"):
+        with _IoSandbox():
+            return iso.interleaving(cfg_a, cfg_b, sched, globals_fp=globals_fp)
     return iso.interleaving(cfg_a, cfg_b, sched, globals_fp=globals_fp)
 
 
@@ -509,7 +533,14 @@ def replay(rec: dict) -> bool:
         fresh_resets = rp.get("fresh_resets", sum(1 for op in history if op[0] == "reset"))
         if rp.get("files"):    # an episode-scheduled scenario: the record carries the folder
             return iso.compare_after_history(_write_folder(rp["files"]), history, fresh_resets, later, make=make_env_path)["diff"] is None
-        return iso.compare_after_history(rp["cfg"], history, fresh_resets, later)["diff"] is None
+        return iso.compare_after_history(rp["cfg"], history, fresh_resets, later, make=make_marl_env if rp.get("marl") else None)["diff"] is None
+    if rp.get("type") == "history-raises":
+        if not isinstance(rp["cfg"], dict) and not rp.get("files"):
+            return False
+        _prepare_replay()
+        cfgp = _write_folder(rp["files"]) if rp.get("files") else rp["cfg"]
+        mk = make_marl_env if rp.get("marl") else (make_env_path if rp.get("files") else None)
+        return not iso.raises_only_after_reset(cfgp, [tuple(x) for x in rp["history"]], make=mk)["fails"]
     return False  # identity / scheduler / global-mutated records are not re-executable on their own: re-run the check
 
 
@@ -656,7 +687,7 @@ def _exec_unit(unit: dict) -> Rec:
     t0 = time.time()
     rec = Rec(_W["tier"])
     try:
-        {"corpus": _do_corpus, "dirty": _do_dirty, "pair": _do_pair, "sched": _do_sched, "order": _do_order}[unit["kind"]](rec, unit)
+        {"corpus": _do_corpus, "dirty": _do_dirty, "pair": _do_pair, "sched": _do_sched, "order": _do_order, "io": _do_io}[unit["kind"]](rec, unit)
     except Exception as e:   # a unit the harness itself cannot run is a broken correspondence obligation, not a silent skip
         import traceback
         rec.oblige(f"rig: unit {unit['kind']}:{unit.get('label', '')} ran", "correspondence", False, traceback.format_exc()[-1500:])
@@ -675,6 +706,7 @@ def run(ctx: Ctx):
     with lean_lock():
         ctx.extract("SharedState", x_ss.emit)
         ctx.extract("IsolationReset", x_ir.emit)
+        ctx.extract("IsolationSinkFlags", x_sf.emit)
         ctx.prove(MODULES, exes=[EXE], leanchecker=ctx.thorough)
     ctx.cov["rule"] = ("(a) one case = scenario x action map x dirty history (1-3 episodes of generated actions) x later action sequence; every compared "
                        "step (observation, reward, flags, every agent's action/request/response, whole describe_state) is one evaluation. "
@@ -712,7 +744,7 @@ def run(ctx: Ctx):
 
     rng = ctx.rng.fork("c04")
     units = _build_units(ctx, rng)
-    n_workers = int(os.environ.get("C04_WORKERS", "0") or 0) or (12 if ctx.thorough else 4)
+    n_workers = int(os.environ.get("C04_WORKERS", "0") or 0) or (12 if ctx.thorough else 6)
     n_workers = max(1, min(n_workers, len(units), (os.cpu_count() or 2)))
     ctx.cov["units"] = len(units)
     ctx.cov["worker_processes"] = n_workers
@@ -794,7 +826,11 @@ def _build_units(ctx: Ctx, rng: Rng) -> List[dict]:
             units.append({"kind": "pair", "label": f"{label_a}|{label_b}#{rep}", "la": label_a, "lb": label_b, "cfg_a": cfg_a, "cfg_b": cfg_b,
                           "rng": rng.fork(f"{label_a}{label_b}{rep}"), "b_first": rng.chance(1, 2), "weight": 25 if "uc7" in label_a + label_b else 10})
     units += _sched_units(ctx, rng.fork("sched"))
+    units += _io_units(ctx, rng.fork("io"))
     units += [{"kind": "order", "label": f"order-{i}", "which": i % 3, "rng": rng.fork(f"order{i}"), "weight": 6} for i in range(ctx.scale(3, 9))]
+    only = os.environ.get("C04_ONLY")     # development aid: run the units of some kinds only (the verdict of such a run is not the check's)
+    if only:
+        units = [u for u in units if u["kind"] in only.split(",")]
     return units
 
 
@@ -807,7 +843,12 @@ def _do_corpus(rec: Rec, unit: dict):
             rec.notes.append(f"corpus {f.name}: scenario missing")
             return
         sched = [tuple(x) for x in rp["schedule"]]
-        _interleaving_case(rec, f"corpus:{f.stem}", rp["a"], rp["b"], cfg_a, cfg_b, sched, rec.model_lines, rec.expectations, shrink=False)
+        if rp.get("io_sandbox"):
+            with _IoSandbox():
+                _interleaving_case(rec, f"corpus:{f.stem}", rp["a"], rp["b"], cfg_a, cfg_b, sched, rec.model_lines, rec.expectations, shrink=False,
+                                   extra={"io_sandbox": True})
+        else:
+            _interleaving_case(rec, f"corpus:{f.stem}", rp["a"], rp["b"], cfg_a, cfg_b, sched, rec.model_lines, rec.expectations, shrink=False)
         rec.count("corpus-witness")
     elif rp.get("type") == "schedule-freshness":
         _sched_case(rec, f"corpus:{f.stem}", rp, shrink=False)
@@ -848,6 +889,12 @@ def _do_dirty(ctx: Rec, unit: dict):
             cfg0 = {}
     fam = iso.seed_family(iso.configured_seed(cfg0), rng.fork("family"))
     seeds = [fam[i] for i in unit["pick"]]
+    if unit.get("marl"):
+        # `PrimaiteRayMARLEnv` never seeds (Gen: C04_gen_marl_shape - neither `__init__` from `game.seed` nor `reset` from its argument):
+        # every reset of it IS the unseeded reset, compared with a fresh environment that starts from the same generator state
+        maker, seeds = make_marl_env, [None, None]
+        episodes = max(2, episodes)      # at least one reset inside the dirty history
+        ctx.count("dirty:multi-agent-environment-case")
     # probe pairs of the generated map: scans of a LIST of targets (end of every dirty episode) / of a single target (end of every compared one)
     extra_h, extra_l = [], []
     if isinstance(cfg, dict):
@@ -858,9 +905,30 @@ def _do_dirty(ctx: Rec, unit: dict):
         ctx.count("dirty:probe-pairs(scan of several networks in the history, of one alone later)", min(len(extra_h), len(extra_l)))
     try:
         r = iso.dirty_history(cfg, rng, n_dirty, n_later, episodes, seeds, make=maker, extra_history=extra_h, extra_later=extra_l)
+    except iso.HistoryRaised as hr:
+        # an operation of the dirty history raised. If the same steps do NOT raise on a newly constructed environment, the reset left
+        # something behind that a new environment does not have: a concrete violation (otherwise: totality, C01's business - noted)
+        ctx.count("dirty:history-operation-raised")
+        rp = {"type": "history-raises", "scenario": label, "marl": bool(unit.get("marl")), "cfg": cfg if isinstance(cfg, dict) else str(cfg),
+              **({} if isinstance(cfg, dict) else {"files": _folder_files(cfg)}), "history": [list(x) for x in hr.history]}
+        try:
+            v = iso.raises_only_after_reset(cfg, hr.history, make=maker)
+        except Exception as e2:
+            v = {"fails": False, "used": str(hr), "fresh": f"oracle not runnable: {type(e2).__name__}"}
+        if v["fails"]:
+            ctx.violation({"kind": "operation-raises-after-reset", "exception": type(hr.exc).__name__},
+                          f"{label}: operation #{len(hr.history)} of the history ({hr.history[-1]}) raises {v['used']} in an episode after a reset; the same "
+                          f"{v['episode_steps']} steps of that episode on a newly constructed environment do not raise", rp)
+        else:
+            ctx.notes.append(f"dirty-history {label}: an operation of the history raised ({v['used']}); a newly constructed environment: {v['fresh']}")
+        return
     except Exception as e:
-        ctx.notes.append(f"dirty-history {label}: not runnable: {type(e).__name__}: {str(e)[:120]}")
+        import traceback
+        where = " <- ".join(f"{fr.filename.split('/')[-1]}:{fr.lineno}:{fr.name}" for fr in traceback.extract_tb(e.__traceback__)[-4:])
+        ctx.notes.append(f"dirty-history {label}: not runnable: {type(e).__name__}: {str(e)[:120]} ({where})")
         ctx.count("dirty:not-runnable")
+        if unit.get("marl"):    # not a silent skip: the multi-agent environment is part of the claim
+            ctx.oblige(f"rig: the multi-agent environment case {label} ran", "correspondence", False, f"{type(e).__name__}: {str(e)[:120]} ({where})")
         return
     ctx.count("dirty:case")
     ctx.traces += 1
@@ -871,7 +939,9 @@ def _do_dirty(ctx: Rec, unit: dict):
     rngflag = int(iso.uses_global_rng(cfg)) if isinstance(cfg, dict) else 1
     buildflag = int(iso.draws_at_build(cfg)) if isinstance(cfg, dict) else 1
     gs = cfg0.get("game", {}).get("seed")
-    ctor = f"constructopt {iso.seed_text(gs if isinstance(gs, int) else None)}"
+    # the multi-agent environment: the seed arguments go to the model as they are, `marlResetCall` / `marlConstructCall` say what they mean
+    rop = "marlresetopt" if unit.get("marl") else "resetopt"
+    ctor = f"{'marlconstructopt' if unit.get('marl') else 'constructopt'} {iso.seed_text(gs if isinstance(gs, int) else None)}"
     reported = False
     for res in r["results"]:
         seed = res["seed"]
@@ -890,15 +960,15 @@ def _do_dirty(ctx: Rec, unit: dict):
                           f"+ the same actions differ from a fresh environment"
                           + (" that starts its reset from the same generator state" if seed is None else "") +
                           f" at record {d['index']} in {d['component']} {d.get('path', '')}: used={d.get('a')} fresh={d.get('b')}",
-                          {"type": "dirty-history", "scenario": label, "cfg": cfg if isinstance(cfg, dict) else str(cfg),
+                          {"type": "dirty-history", "scenario": label, "marl": bool(unit.get("marl")), "cfg": cfg if isinstance(cfg, dict) else str(cfg),
                            **({} if isinstance(cfg, dict) else {"files": _folder_files(cfg)}), "history": [list(x) for x in res["history"]], "fresh_resets": res["fresh_resets"], "later": [list(x) for x in res["later"]], "diff": d})
         # model: used = instance 0, fresh = instance 1, same environment-level attributes; the seed argument goes to the model AS IT IS
         lines = ["reset", f"new 0 7 1 0 {rngflag} {sched_flag} 0 {buildflag}", f"new 1 7 1 0 {rngflag} {sched_flag} 0 {buildflag}", f"ev 0 {ctor}"]
         for op in res["history"]:
-            lines.append(f"ev 0 resetopt {iso.seed_text(op[1])}" if op[0] == "reset" else f"ev 0 step {op[1] % 1000}")
-        later_lines = [f"ev X resetopt {iso.seed_text(seed)}"] + [f"ev X step {op[1] % 1000}" for op in res["later"][1:]]
+            lines.append(f"ev 0 {rop} {iso.seed_text(op[1])}" if op[0] == "reset" else f"ev 0 step {op[1] % 1000}")
+        later_lines = [f"ev X {rop} {iso.seed_text(seed)}"] + [f"ev X step {op[1] % 1000}" for op in res["later"][1:]]
         lines += (["saverng"] if seed is None else []) + [l.replace("X", "0") for l in later_lines]
-        lines += [f"ev 1 {ctor}"] + [f"ev 1 resetopt {1000003 + k}" for k in range(res["fresh_resets"])]
+        lines += [f"ev 1 {ctor}"] + [f"ev 1 {rop} {1000003 + k}" for k in range(res["fresh_resets"])]
         lines += (["restorerng"] if seed is None else []) + [l.replace("X", "1") for l in later_lines]
         lines.append(f"cmptail 0 1 {len(later_lines)}")
         ctx.model_lines += lines
@@ -980,7 +1050,7 @@ def _do_pair(ctx: Rec, unit: dict):
 
 
 def _variant(spec: Dict) -> Optional[Dict]:
-    """scenario spec of a corpus file: {"scenario": name, "nmne": {...}?, "strip_rng": bool?, "seed": int?}"""
+    """scenario spec of a corpus file: {"scenario": name, "nmne": {...}?, "strip_rng": bool?, "seed": int?, "io": {io_settings}?}"""
     cfg = _load(spec["scenario"])
     if cfg is None:
         return None
@@ -990,6 +1060,8 @@ def _variant(spec: Dict) -> Optional[Dict]:
         cfg = strip_rng(cfg)
     if "seed" in spec:
         cfg = set_seed(cfg, spec["seed"])
+    if "io" in spec:
+        cfg = with_io(cfg, spec["io"])
     return cfg
 
 
@@ -1013,6 +1085,10 @@ def _dirty_specs(ctx: Ctx, rng: Rng):
     for d in (["scenario_with_placeholders"] + (["mini_scenario_with_simulation_variation"] if ctx.thorough else [])):
         if (scen.PKG / d).is_dir():
             yield f"{d}/episodic", {"dir": d}
+    # the multi-agent environment (PrimaiteRayMARLEnv) on the shipped two-defender scenarios
+    for name in (["data_manipulation_marl"] + (["multi_agent_session"] if ctx.thorough else [])):
+        if name in sh:
+            yield f"{name}/marl-env", {"scenario": name, "aug": None, "marl": True}
 
 
 def _pairs(ctx: Ctx, rng: Rng):
@@ -1062,7 +1138,7 @@ def _is_known(sig: dict) -> bool:
 
 
 def _interleaving_case(ctx: "Rec", label: str, la, lb, cfg_a: Dict, cfg_b: Dict, sched: List[Tuple], model_lines: List[str],
-                       expectations: List[Tuple[str, Any]], shrink: bool):
+                       expectations: List[Tuple[str, Any]], shrink: bool, extra: Optional[dict] = None):
     try:
         r = iso.interleaving(cfg_a, cfg_b, sched, globals_fp=globals_fp)
     except Exception as e:
@@ -1087,7 +1163,8 @@ def _interleaving_case(ctx: "Rec", label: str, la, lb, cfg_a: Dict, cfg_b: Dict,
         ctx.case({"k": "il", "pair": label, "d": r["digest"], "i": k, "s": hash(tuple(sched)) & 0xffffff}, prev_b or (e[1] == "step" and e[2] != 0))
         prev_b = False
         k += 1
-    replay_info = {"type": "interleaving", "a": la, "b": lb, "cfg_a": cfg_a, "cfg_b": cfg_b, "schedule": [list(x) for x in sched], "diff": r["diff"]}
+    replay_info = {"type": "interleaving", "a": la, "b": lb, "cfg_a": cfg_a, "cfg_b": cfg_b, "schedule": [list(x) for x in sched], "diff": r["diff"],
+                   **(extra or {})}
     ctx.count("interleave:own-globals-checked")
     if r.get("own_globals") is not None:
         # not F-10 (B overwrites what A reads): A's OWN construction / reset left process globals that depend on who ran before it
@@ -1125,6 +1202,128 @@ def _interleaving_case(ctx: "Rec", label: str, la, lb, cfg_a: Dict, cfg_b: Dict,
             expectations.append(("astep", (label, i, same[i], replay_info)))
         else:
             expectations.append(("skip", None))
+
+
+# ---------------------------------------------------------------------------------------------- (h) instances whose io_settings DIFFER
+# `PrimaiteIO(...)` (one per environment) writes its settings into the process-wide `SIM_OUTPUT`; every SysLog / AgentLog / PacketCapture
+# of EVERY game consults those flags at log time. The inventory classifies SIM_OUTPUT sink-only (file / terminal output is outside the
+# trajectory) - which is only true as long as a log call cannot raise or take another path through the simulation. This family checks
+# exactly that: two instances that differ in ONE output option (and in all of them), both directions, both creation orders.
+IO_BOOLS = ["save_logs", "save_agent_actions", "save_step_metadata", "save_pcap_logs", "save_sys_logs", "save_agent_logs",
+            "write_sys_log_to_terminal", "write_agent_log_to_terminal"]
+IO_BASE = {**scen.QUIET_IO, "sys_log_level": "DEBUG", "agent_log_level": "DEBUG"}     # every log call passes the level gate
+
+
+def io_variants() -> List[Tuple[str, Dict, Dict]]:
+    """(name, io_settings with the option(s) OFF, io_settings with the option(s) ON)"""
+    out = [(o, dict(IO_BASE), {**IO_BASE, o: True}) for o in IO_BOOLS]
+    out.append(("log-levels", {**IO_BASE, "sys_log_level": "CRITICAL", "agent_log_level": "CRITICAL"},
+                {**IO_BASE, "save_sys_logs": True, "save_agent_logs": True}))
+    out.append(("all-options", dict(scen.QUIET_IO), {**{o: True for o in IO_BOOLS}, "sys_log_level": "DEBUG", "agent_log_level": "DEBUG"}))
+    return out
+
+
+def with_io(cfg: Dict, io: Dict) -> Dict:
+    cfg = copy.deepcopy(cfg)
+    cfg["io_settings"] = dict(io)
+    return cfg
+
+
+def io_schedule(b_first: bool, acts: List[int], sa: int, sb: int) -> List[Tuple]:
+    """both creation orders inside ONE schedule as well: B is built before / after A, closed, and a successor is built while A lives"""
+    s: List[Tuple] = [("B", "construct"), ("A", "construct")] if b_first else [("A", "construct"), ("B", "construct")]
+    s += [("A", "reset", 5), ("B", "reset", 6)]
+    for i, a in enumerate(acts):
+        if i == len(acts) // 2:
+            s += [("B", "close"), ("A", "reset", 0), ("B", "construct")]
+        s += [("B", "step", (a * 7 + 1) % max(1, sb)), ("A", "step", a % max(1, sa))]
+    return s
+
+
+class _IoSandbox:
+    """file output of the instances under test goes below a temporary session directory, terminal output nowhere; afterwards the
+    process-wide output settings and the `logging` handlers the instances installed are put back"""
+
+    def __enter__(self):
+        import contextlib
+        import io as _io
+        import logging
+
+        from primaite.session.io import PrimaiteIO
+        from primaite.simulator import SIM_OUTPUT
+        self.tmp = tempfile.mkdtemp(prefix="c04io_", dir=_W.get("tmp"))
+        if not _W.get("tmp"):
+            _TMP.append(self.tmp)
+        # as in the real code every environment of the process gets the SAME session directory - here a temporary one. (The method is
+        # replaced, not `PRIMAITE_PATHS`: that object is an import-only inventory entry which the normalisation would put back.)
+        session = Path(self.tmp) / "sessions"
+
+        def generate_session_path(io_self, timestamp=None):
+            session.mkdir(exist_ok=True, parents=True)
+            return session
+        self.io_cls, self.orig = PrimaiteIO, PrimaiteIO.generate_session_path
+        PrimaiteIO.generate_session_path = generate_session_path
+        self.simout = dict(vars(SIM_OUTPUT))
+        self.loggers = set(logging.root.manager.loggerDict)
+        self.redirect = contextlib.redirect_stdout(_io.StringIO())
+        self.redirect.__enter__()
+        return self
+
+    def __exit__(self, *exc):
+        import logging
+
+        from primaite.simulator import SIM_OUTPUT
+        self.redirect.__exit__(*exc)
+        self.io_cls.generate_session_path = self.orig
+        vars(SIM_OUTPUT).clear()
+        vars(SIM_OUTPUT).update(self.simout)
+        for name, lg in list(logging.root.manager.loggerDict.items()):
+            if isinstance(lg, logging.Logger) and (name not in self.loggers or name.endswith(("_sys_log", "_pcap", "_log"))):
+                for h in lg.handlers[:]:
+                    if isinstance(h, logging.FileHandler) and str(getattr(h, "baseFilename", "")).startswith(self.tmp):
+                        lg.removeHandler(h)
+                        h.close()
+        shutil.rmtree(self.tmp, ignore_errors=True)
+        return False
+
+
+def _io_units(ctx: Ctx, rng: Rng) -> List[dict]:
+    uc2 = _load("data_manipulation")
+    if not uc2:
+        return []
+    base = strip_rng(uc2)        # nothing that draws from a global generator in `step`: the model predicts A unaffected, F-11 stays out
+    units = []
+    special = ("log-levels", "all-options", "save_sys_logs", "save_pcap_logs")
+    for k, (name, off, on) in enumerate(io_variants()):
+        for a_on in (False, True):
+            for b_first in (False, True):
+                # thorough: every option x both directions x both creation orders (40). quick (18): every single option in the direction
+                # "A off, B on" with the creation order alternating from option to option (the schedule itself closes and re-builds B
+                # while A lives); both orders and the reverse direction for the options that create loggers and for the combined variants
+                if not ctx.thorough:
+                    if name not in special and (a_on or b_first != bool(k % 2)):
+                        continue
+                    if name in special and a_on and b_first:
+                        continue
+                la = f"io:{name}={'on' if a_on else 'off'}"
+                lb = f"io:{name}={'off' if a_on else 'on'}"
+                units.append({"kind": "io", "label": f"{la}|{lb}|{'B' if b_first else 'A'}-first", "la": la, "lb": lb,
+                              "cfg_a": with_io(base, on if a_on else off), "cfg_b": with_io(base, off if a_on else on), "b_first": b_first,
+                              "rng": rng.fork(f"io{name}{a_on}{b_first}"), "weight": 5})
+    return units
+
+
+def _do_io(ctx: Rec, unit: dict):
+    cfg_a, cfg_b = unit["cfg_a"], unit["cfg_b"]
+    sa = len(envrig.proxy_agent_cfg(cfg_a)["action_space"]["action_map"])
+    sb = len(envrig.proxy_agent_cfg(cfg_b)["action_space"]["action_map"])
+    acts = iso.gen_actions(unit["rng"], ctx.scale(6, 14), sa, do_nothing_share=3)
+    sched = io_schedule(unit["b_first"], acts, sa, sb)
+    ctx.count("io-differs:case")
+    ctx.count(f"io-differs:{unit['la']}|{unit['lb']}")
+    with _IoSandbox():
+        _interleaving_case(ctx, unit["label"], unit["la"], unit["lb"], cfg_a, cfg_b, sched, ctx.model_lines, ctx.expectations, shrink=True,
+                           extra={"io_sandbox": True})
 
 
 # ---------------------------------------------------------------------------------------------- (e) episode schedules
